@@ -10,7 +10,8 @@ RULE = ("48 feature shapes that always contain a rule and tags on every level (f
         "block), optional scenario/outline before the rule, backgrounds at none/feature/feature+rule level, all twelve hook "
         "kinds defined, followed by a second feature. For each shape and each variation {default, --stop, --tags 'not u' with "
         "one scenario de-selected} EVERY hook invocation of the fault-free run is taken as injection point (k-th hook call "
-        "raises an Exception subclass / an AssertionError); thorough adds all PAIRS of injection points. Oracle: run() "
+        "raises an Exception subclass / an AssertionError; once more with every hook and step reading the .status of the "
+        "current feature/rule/scenario before it raises); thorough adds all PAIRS of injection points. Oracle: run() "
         "returns, verdict failed, complete hook log equals the reference grammar (after-hooks paired), the element concerned "
         "is hook_error and a failed before-hook keeps its body from running, every element outside the concerned element's "
         "ancestry keeps the status/call log of the real fault-free run; no hooks for de-selected scenarios nor in dry-run. "
@@ -61,13 +62,16 @@ def concerned_paths(ref_entry):
 
 
 def run_case(case):
-    prog, cfgname, faults = case
+    prog, cfgname, faults = case[:3]
+    probe = len(case) > 3 and case[3]      # hooks and steps also READ feature/rule/scenario .status (caching property)
     cfg = VARIATIONS[cfgname]
-    obs = harness.run_case(prog, cfg, faults=faults, hooks=True)
+    obs = harness.run_case(prog, cfg, faults=faults, hooks=True, probe_status=bool(probe))
     ref = refrun.predict(prog, cfg, faults=faults, hooks=True)
     v = refrun.compare(prog, ref, obs, what=("verdict", "status", "steps", "calls", "hooks"))
     for d, msg in v:
         d.setdefault("fault", ",".join(ref.fault_sites))
+        if probe:
+            d["probe"] = "status-read-from-hooks"
     if not obs["escaped"]:
         nest = refrun._nesting_error(obs["hooks"])
         if nest:
@@ -133,6 +137,8 @@ def cases(tier):
             for k in range(n):
                 for kind in ("exc", "assert"):
                     yield (prog, cfgname, {k: kind})
+                if cfgname == "default":
+                    yield (prog, cfgname, {k: "exc"}, True)
 
 
 def pair_cases(tier):
